@@ -79,13 +79,22 @@ class Engine:
             return self.pick(members), "valid"
         return self.pick(pool), "random"
 
+    def position(self, *more, kind="add"):
+        """position= argument of the add_* / connect calls: absent, the front - or, as an invalid argument, something no list
+        position can be (the refusal then comes from list.insert, late in the call).  Fences (open finding
+        non-integer-position-fails-late): "bad_position" = never, "bad_position_connect" = not for connect_pin."""
+        ok = "bad_position" not in self.fences and not (kind == "connect" and "bad_position_connect" in self.fences)
+        if ok and self.invalid() and self.r.random() < 0.15:
+            return self.pick(["0", 1.5, 10 ** 30, [0]])
+        return self.pick([None, 0] + list(more))
+
     def all_outer(self):
         return [op for i in self.u.insts for op in i.pins]
 
     def _weights(self, profile):
         base = dict(
             new_netlist=1, create_library=2, add_library=1, remove_library=1, remove_libraries_from=1, set_libraries=1,
-            new_orphan=3, new_shape_sibling=2, create_definition=3, add_definition=1, remove_definition=1, remove_definitions_from=1,
+            new_orphan=3, new_shape_sibling=3, create_definition=3, add_definition=1, remove_definition=1, remove_definitions_from=1,
             set_definitions=1, create_port=4, add_port=2, remove_port=2, remove_ports_from=1, set_ports=1,
             create_pin=2, create_pins=1, add_pin=1, remove_pin=2, remove_pins_from=1, set_pins=1,
             create_cable=4, add_cable=1, remove_cable=1, remove_cables_from=1, set_cables=1,
@@ -116,6 +125,12 @@ class Engine:
         if profile == "hostile":
             base["clone_small"] = 0
             base["bundle_attr"] = 8
+            base["set_reference"] = 8          # re-points: the refusal may come half-way through the re-keying
+            base["new_shape_sibling"] = 5
+            for k in ("remove_libraries_from", "remove_definitions_from", "remove_ports_from", "remove_pins_from", "remove_cables_from",
+                      "remove_wires_from", "remove_children_from", "disconnect_pins_from"):
+                if k in base:
+                    base[k] = max(base[k], 3)      # the bulk variants check their whole argument before touching anything - or do they?
         return {k: v for k, v in base.items() if v > 0}
 
     # ------------------------------------------------------------------ driving
@@ -159,7 +174,7 @@ class Engine:
         l, st = self.members_or_random(orphans, self.u.libs)
         if l is None:
             return None
-        pos = self.pick([None, 0])
+        pos = self.position()
         return Op("Netlist.add_library", lambda: n.add_library(l, pos), "add_library", st, n, (l,))
 
     def op_remove_library(self):
@@ -177,7 +192,7 @@ class Engine:
             st = "random"
         xs = BulkArg(xs)
         hashable = all(not isinstance(x, BaseOuterPin) for x in xs)
-        xs.form = self.r.choice(["list", "list", "set", "tuple", "iterator", "generator"] if hashable else ["list", "tuple", "iterator", "generator"])
+        xs.form = self.r.choice(["list", "list", "set", "set", "tuple", "iterator", "generator"] if hashable else ["list", "tuple", "iterator", "generator"])
         return xs, st
 
     def op_remove_libraries_from(self):
@@ -190,8 +205,10 @@ class Engine:
         L = list(base)
         self.r.shuffle(L)
         if self.invalid():
-            k = self.r.randrange(4)
-            if k == 0 and L:
+            k = self.r.randrange(5)
+            if k == 4 and len(L) >= 2:
+                L = L[:-1] + [L[0]]         # the right length, one member twice and another one missing
+            elif k == 0 and L:
                 L = L + [L[0]]
             elif k == 1 and L:
                 L = L[:-1]
@@ -266,13 +283,15 @@ class Engine:
             return None
         src = self.pick(cands)
         widths = [len(p.pins) for p in src.ports]
-        kind = self.r.choice(["same", "same", "last port wider", "last port wider", "widths permuted"])
+        kind = self.r.choice(["same", "same", "last port wider", "last port wider", "widths permuted", "widths permuted"])
         same = kind == "same"
         if kind == "last port wider":
             widths[-1] += 1
         elif kind == "widths permuted":
             # same number of ports, same total number of pins, another distribution over the ports
-            if len(widths) >= 2 and len(set(widths)) > 1:
+            if len(widths) >= 3 and len(set(widths[1:])) > 1 and self.r.random() < 0.5:
+                widths = widths[:1] + widths[2:] + widths[1:2]      # the first port keeps its width: the mismatch comes late
+            elif len(widths) >= 2 and len(set(widths)) > 1:
                 widths = widths[1:] + widths[:1]
             elif len(widths) >= 2 and widths[0] >= 1:
                 widths[0] -= 1
@@ -303,7 +322,7 @@ class Engine:
         d, st = self.members_or_random([d for d in self.u.defs if d.library is None], self.u.defs)
         if d is None:
             return None
-        pos = self.pick([None, 0])
+        pos = self.position()
         return Op("Library.add_definition", lambda: l.add_definition(d, pos), "add_definition", st, l, (d,))
 
     def op_remove_definition(self):
@@ -360,7 +379,20 @@ class Engine:
         p, st = self.members_or_random([p for p in self.u.ports if p.definition is None], self.u.ports)
         if p is None:
             return None
-        pos = self.pick([None, 0])
+        if p.definition is None and self.invalid() and self.r.random() < 0.5:
+            # a pre-built port (with pins) that carries the name of a port the target already has, offered to an INSTANCED
+            # definition: the naming rules refuse it - after or before the instances were given outer pins?
+            d2 = self._def(instanced=True)
+            named = [q for q in (d2.ports if d2 is not None else []) if q.name]
+            if named:
+                try:
+                    p.name = self.pick(named).name
+                    d, st = d2, "name-collision"
+                    if not len(p.pins):
+                        p.create_pins(self.r.choice([1, 2]))
+                except Exception:  # noqa: BLE001
+                    pass
+        pos = self.position()
         return Op("Definition.add_port", lambda: d.add_port(p, pos), "add_port(pins=%d)" % len(p.pins), st, d, (p,))
 
     def op_remove_port(self):
@@ -422,7 +454,7 @@ class Engine:
             x, st = self.pick(self.u.ipins), "random"
         if x is None:
             return None
-        pos = self.pick([None, 0])
+        pos = self.position()
         return Op("Port.add_pin", lambda: p.add_pin(x, pos), "add_pin(%s)" % st, st, p, (x,))
 
     def op_remove_pin(self):
@@ -470,7 +502,7 @@ class Engine:
         c, st = self.members_or_random([c for c in self.u.cables if c.definition is None], self.u.cables)
         if c is None:
             return None
-        pos = self.pick([None, 0])
+        pos = self.position()
         return Op("Definition.add_cable", lambda: d.add_cable(c, pos), "add_cable", st, d, (c,))
 
     def op_remove_cable(self):
@@ -515,7 +547,7 @@ class Engine:
         w, st = self.members_or_random([w for w in self.u.wires if w.cable is None], self.u.wires)
         if w is None:
             return None
-        pos = self.pick([None, 0])
+        pos = self.position()
         return Op("Cable.add_wire", lambda: c.add_wire(w, pos), "add_wire", st, c, (w,))
 
     def op_remove_wire(self):
@@ -566,7 +598,7 @@ class Engine:
         i, st = self.members_or_random([i for i in self.u.insts if i.parent is None], self.u.insts)
         if i is None:
             return None
-        pos = self.pick([None, 0])
+        pos = self.position()
         return Op("Definition.add_child", lambda: d.add_child(i, pos), "add_child", st, d, (i,))
 
     def op_remove_child(self):
@@ -616,7 +648,11 @@ class Engine:
                 # same port count, widths differ in a LATER port: the refusal must come before any pin is re-keyed
                 late = [d for d in self.u.defs if cur is not None and len(self.shape(d)) == len(self.shape(cur)) >= 2 and
                         self.shape(d) != self.shape(cur) and self.shape(d)[0] == self.shape(cur)[0]]
-                if late and self.r.random() < 0.5:
+                totals = [d for d in self.u.defs if cur is not None and self.shape(d) != self.shape(cur) and
+                          len(self.shape(d)) == len(self.shape(cur)) and sum(self.shape(d)) == sum(self.shape(cur))]
+                if totals and self.r.random() < (0.35 if late else 0.5):
+                    ref, st = self.pick(totals), "same-totals-mismatch"     # equal port count and pin total, other widths
+                elif late and self.r.random() < 0.6:
                     ref, st = self.pick(late), "late-width-mismatch"
                 else:
                     ref = self.pick(self.u.defs)
@@ -679,7 +715,7 @@ class Engine:
         p, st = self._pin_for_connect(w)
         if p is None:
             return None
-        pos = self.pick([None, None, 0])
+        pos = self.position(None, kind="connect")
         if pos is None:
             return Op("Wire.connect_pin", lambda: w.connect_pin(p), "connect_pin(%s)" % st, st, w, (p,))
         return Op("Wire.connect_pin", lambda: w.connect_pin(p, position=pos), "connect_pin(%s,pos=0)" % st, st, w, (p,))
@@ -717,10 +753,21 @@ class Engine:
         ps = [proxy(p) if isinstance(p, BaseOuterPin) and self.r.random() < 0.4 else p for p in ps]
         st = "valid"
         if self.invalid():
-            c = [p for p in self.u.ipins + self.all_outer() if p.wire is not w]
-            if c:
-                ps.append(self.pick(c))
-                st = "mixed-invalid"
+            k = self.r.randrange(4)
+            bad = None
+            if k == 0 and self.stale_proxies:
+                i, ip = self.pick(self.stale_proxies)
+                bad, st = sdn.OuterPin.from_instance_and_inner_pin(i, ip), "mixed-stale-proxy"
+            elif k == 1 and self.u.insts and self.u.ipins:
+                bad, st = sdn.OuterPin.from_instance_and_inner_pin(self.pick(self.u.insts), self.pick(self.u.ipins)), "mixed-mismatched-proxy"
+            elif k == 2:
+                bad, st = sdn.OuterPin(), "mixed-empty-outer"
+            if bad is None:
+                c = [p for p in self.u.ipins + self.all_outer() if p.wire is not w]
+                if c:
+                    bad, st = self.pick(c), "mixed-invalid"
+            if bad is not None:
+                ps.insert(self.r.randint(0, len(ps)), bad)       # anywhere among the valid ones
         arg = set(ps) if self.r.random() < 0.3 else ps
         return Op("Wire.disconnect_pins_from", lambda: w.disconnect_pins_from(arg), "disconnect_pins_from(%d,%s)" % (len(ps), st), st, w, (ps,))
 
@@ -914,3 +961,29 @@ def run_history(eng, nsteps, monitors):
         if stop:
             return t
     return None
+
+
+def probe_bad_position(which="connect"):
+    """Open finding non-integer-position-fails-late: a position= argument that list.insert cannot take makes the call fail
+    AFTER it was announced / registered / the pin was pointed at the wire.  True while that reproduces."""
+    n = sdn.Netlist("n")
+    lib = n.create_library("l")
+    leaf = lib.create_definition("leaf")
+    leaf.create_port("p", pins=1)
+    d = lib.create_definition("d")
+    if which == "connect":
+        i = d.create_child("i", reference=leaf)
+        w = d.create_cable("c", wires=1).wires[0]
+        op = next(iter(i.pins))
+        try:
+            w.connect_pin(op, position="0")
+        except TypeError:
+            return op.wire is w and op not in list(w.pins)
+        return False
+    x = sdn.Instance("taken")
+    x.reference = leaf
+    try:
+        d.add_child(x, position="0")
+    except TypeError:
+        return x not in list(d.children) and next(d.get_instances("taken"), None) is not None
+    return False
